@@ -478,11 +478,11 @@ Proof.
 Qed.
 
 (* no annotation at all: the signature of __new__ lists _fields without annotations *)
-Lemma merge_params_nodup : forall m ps,
+Lemma merge_params_nodup : forall (f : param -> hint) ps,
   nodup_s (map p_name ps) = true ->
-  hints_from_params m ps = map (fun p => (p_name p, sig_hint m p)) ps.
+  merge (map (fun p => (p_name p, f p)) ps) = map (fun p => (p_name p, f p)) ps.
 Proof.
-  intros m ps H. unfold hints_from_params. apply merge_nodup. unfold names_of. rewrite map_map. exact H.
+  intros f ps H. apply merge_nodup. unfold names_of. rewrite map_map. exact H.
 Qed.
 Lemma nt_field_list_unannotated : forall d fs,
   c_flavour d = FlNamedTuple -> nt_guard T W d = true -> annotating (c_mro d) = [] ->
@@ -497,7 +497,7 @@ Proof.
   unfold InspectHints.spec_fields in Hs. rewrite Hfl in Hs. unfold spec_namedtuple in Hs. rewrite Hun in Hs.
   inversion Hs; subst fs. clear Hs.
   rewrite (unannotated_gth d Hun). unfold hints_from_signature. rewrite Esig.
-  rewrite merge_params_nodup; [| rewrite Hnm; exact Hnd].
+  rewrite (merge_params_nodup (fun p => sig_hint (param_module W d p) p)); [| rewrite Hnm; exact Hnd].
   rewrite <- Hnm, map_map. apply map_ext_in. intros p Hp.
   rewrite forallb_forall in Hemp. specialize (Hemp p Hp). unfold sig_hint.
   destruct (p_ann p); try discriminate Hemp. reflexivity.
@@ -556,6 +556,24 @@ Proof.
   - inversion H. reflexivity.
 Qed.
 
+Lemma decl_module_unannotated : forall mro n s, unannotated mro = true -> decl_module mro n s = None.
+Proof.
+  induction mro as [|k r IH]; intros n s H; [reflexivity|].
+  unfold unannotated in H. cbn in H. apply andb_prop in H. destruct H as [H1 H2].
+  cbn. destruct (k_ann k); [|discriminate H1]. cbn. exact (IH n s H2).
+Qed.
+(* the text of a parameter of an annotation-free class is evaluated in the module of the class whose constructor it is *)
+Lemma param_module_unannotated : forall d m ps p s,
+  unannotated (c_mro d) = true -> inspect_signature W d = Some (m, ps) -> In p ps -> p_ann p = AStr s ->
+  param_module W d p = m.
+Proof.
+  intros d m ps p s Hun Hsig Hin Hp. unfold param_module, ann_module. rewrite Hp.
+  rewrite (decl_module_unannotated _ _ _ Hun). destruct (existsb k_dc (c_mro d)); cbv iota;
+    unfold inspect_signature in Hsig; destruct (sig_of_mro W (c_mro d)) as [[m' ps']|].
+  1,3: inversion Hsig; reflexivity.
+  all: destruct (c_sigless d); [discriminate Hsig|]; inversion Hsig; subst; destruct Hin.
+Qed.
+
 Lemma pl_field_list_signature : forall d fs,
   c_flavour d = FlPlain -> flavour_ok T d = true -> pl_guard W d = true -> unannotated (c_mro d) = true ->
   spec_fields d = Some fs -> resolve_hints W (get_type_hints d true) = fs.
@@ -563,20 +581,27 @@ Proof.
   intros d fs Hfl Hok Hg Hun Hs.
   unfold flavour_ok in Hok. rewrite Hfl in Hok. apply andb_prop in Hok. destruct Hok as [_ Hok].
   apply andb_prop in Hok. destruct Hok as [Hntd Hnt]. apply negb_true_iff in Hntd.
-  unfold pl_guard in Hg. rewrite Hs, Hun in Hg. apply andb_prop in Hg. destruct Hg as [Hnd Hg].
+  unfold pl_guard in Hg. rewrite Hs, Hun in Hg. apply andb_prop in Hg. destruct Hg as [Hnd Hstrip].
   destruct (inspect_signature W d) as [[m ps]|] eqn:Esig; [|discriminate].
-  apply andb_prop in Hg. destruct Hg as [Hm Hstrip]. apply String.eqb_eq in Hm.
   unfold InspectHints.spec_fields in Hs. rewrite Hfl in Hs. unfold spec_plain in Hs. rewrite Esig in Hs.
   change (mapO (spec_param m) ps = Some fs) in Hs.
   rewrite (unannotated_gth d Hun). unfold hints_from_signature, signature. rewrite Hntd.
   destruct (istupletype T (self_ity d)) as [[|]|]; try discriminate Hnt.
-  rewrite Esig. cbn [option_map snd]. rewrite <- Hm.
-  rewrite merge_params_nodup; [| rewrite <- (spec_params_names _ _ _ Hs); exact Hnd].
-  clear Hnd Esig. revert fs Hs. induction ps as [|p r IH]; cbn; intros fs Hs.
+  rewrite Esig. cbn [option_map snd].
+  rewrite (merge_params_nodup (fun p => sig_hint (param_module W d p) p));
+    [| rewrite <- (spec_params_names _ _ _ Hs); exact Hnd].
+  assert (Hmod : forall p s, In p ps -> p_ann p = AStr s -> param_module W d p = m).
+  { intros p s Hin Hp. exact (param_module_unannotated d m ps p s Hun Esig Hin Hp). }
+  clear Hnd Esig. revert fs Hs Hmod. induction ps as [|p r IH]; cbn; intros fs Hs Hmod.
   - inversion Hs. reflexivity.
   - cbn in Hstrip. apply andb_prop in Hstrip. destruct Hstrip as [H1 H2].
     destruct (spec_param m p) eqn:Ep; [|discriminate]. destruct (mapO (spec_param m) r) eqn:Er; [|discriminate].
-    inversion Hs; subst. rewrite (spec_param_resolve _ _ _ H1 Ep). f_equal. exact (IH H2 _ eq_refl).
+    inversion Hs; subst.
+    assert (Hsh : sig_hint (param_module W d p) p = sig_hint m p).
+    { unfold sig_hint. destruct (p_ann p) as [h|s|] eqn:Ea; try reflexivity.
+      rewrite (Hmod p s (or_introl eq_refl) Ea). reflexivity. }
+    rewrite Hsh, (spec_param_resolve _ _ _ H1 Ep). f_equal.
+    apply (IH H2 _ eq_refl). intros p' s' Hin. apply Hmod. right. exact Hin.
 Qed.
 
 (* ------------------------------------------------------------------ dataclasses *)
@@ -832,16 +857,19 @@ Proof.
   change (flat_map (fun p : bool * list string => snd p) r) with (td_keys r).
   rewrite (IH t H2). destruct t; reflexivity.
 Qed.
+Lemma td_signature_required : forall d p,
+  In p (typed_dict_signature W d) -> p_default p = negb (memS (p_name p) (c_required d)).
+Proof.
+  intros d p Hin. unfold typed_dict_signature in Hin. apply in_map_iff in Hin. destruct Hin as [nh [Hp _]].
+  subst p. reflexivity.
+Qed.
 Lemma td_signature_defaults : forall d p,
   td_sig_guard W d = true -> In p (typed_dict_signature W d) ->
   p_default p = negb (memS (p_name p) (td_required (c_parts d))).
 Proof.
   intros d p Hg Hin. unfold td_sig_guard in Hg.
-  apply andb_prop in Hg. destruct Hg as [Hg Hkeys]. apply andb_prop in Hg. destruct Hg as [Huni Hattr].
   unfold typed_dict_signature in Hin. apply in_map_iff in Hin. destruct Hin as [nh [Hp Hnh]]. subst p. cbn.
-  rewrite forallb_forall in Hattr, Hkeys. specialize (Hattr nh Hnh). specialize (Hkeys nh Hnh).
-  apply negb_true_iff in Hattr. rewrite Hattr. cbn.
-  rewrite (td_required_uniform _ _ Huni). destruct (c_total d); cbn; [rewrite Hkeys|]; reflexivity.
+  rewrite forallb_forall in Hg. specialize (Hg nh Hnh). apply Bool.eqb_prop in Hg. rewrite Hg. reflexivity.
 Qed.
 
 (* ------------------------------------------------------------------ tuples *)
